@@ -40,6 +40,18 @@ class Machine:
         self.fn = fn
         body = fn["body"]
         self.pre, self.loop, self.post = [], None, []
+        # constants of the function body and of the file (literal-valued): names for states / characters
+        self.consts = {}
+        import facts as _facts
+        from astlib import all_items as _all_items
+        for _f, _items in _facts.ast().items():
+            if any(it is fn or (it.get("k") == "Impl" and fn in it.get("items", [])) for _p, it in _all_items(_items)):
+                for _p, it in _all_items(_items):
+                    if it.get("k") == "Const" and it.get("expr", {}).get("k") == "Lit":
+                        self.consts[it["name"]] = it["expr"]
+        for x in body["stmts"]:
+            if x["k"] == "ItemStmt" and x["item"].get("k") == "Const" and x["item"].get("expr", {}).get("k") == "Lit":
+                self.consts[x["item"]["name"]] = x["item"]["expr"]
         for s in body["stmts"]:
             e = s.get("e") if s["k"] == "ExprStmt" else None
             if self.loop is None and e is not None and e["k"] in ("While", "For", "Loop"):
@@ -105,6 +117,8 @@ class Machine:
             return ("enum", last(e["path"]))
         if e["k"] == "Path" and e["path"] == "None":
             return None
+        if e["k"] == "Path" and e["path"] in getattr(self, "consts", {}):
+            return self.lit_value(self.consts[e["path"]])
         return OPAQUE
 
     def find_alphabet(self):
@@ -231,6 +245,12 @@ class Machine:
         if k == "PIdent":
             if p["name"] == "None" and p["sub"] is None:
                 return v is None
+            if p["name"] in self.consts and p["sub"] is None and not p.get("mut") and not p.get("by_ref"):
+                # an identifier pattern that names a constant compares with it
+                cv = self.expr(self.consts[p["name"]])
+                if v is OPAQUE:
+                    raise Unsupported("constant pattern on data value")
+                return v == cv
             if p["sub"] is not None and not self.bind(p["sub"], v):
                 return False
             self.env[p["name"]] = v
@@ -314,6 +334,8 @@ class Machine:
                 return ("enum", last(p))
             if p == self.input_param:
                 return OPAQUE
+            if p in self.consts:
+                return self.expr(self.consts[p])
             raise Unsupported("variable " + p)
         if k in ("Ref",):
             return self.expr(e["e"])
@@ -480,12 +502,19 @@ class Machine:
                     import re
 
                     mm = re.fullmatch(r"(?:std::iter::)?repeat\('(.)'\)\.take\((.*)\)", t)
-                    if mm:
-                        a = e["args"][0]
+                    a = strip(e["args"][0])
+                    ch = mm.group(1) if mm else None
+                    if ch is None and a["k"] == "MethodCall" and a["method"] == "take" and len(a["args"]) == 1:
+                        r0 = strip(a["recv"])
+                        if r0["k"] == "Call" and r0["func"]["k"] == "Path" and last(r0["func"]["path"]) == "repeat" and len(r0["args"]) == 1:
+                            cv = self.expr(r0["args"][0])
+                            if isinstance(cv, str) and len(cv) == 1:
+                                ch = cv
+                    if ch is not None:
                         n = self.expr(a["args"][0])
                         if n is OPAQUE:
                             raise Unsupported("repeat count is data")
-                        self.out.append(mm.group(1) * n)
+                        self.out.append(ch * n)
                         return None
                 raise Unsupported("output method " + m)
             recv = self.expr(e["recv"])
